@@ -2,6 +2,8 @@ import Sonic.Proofs.NumberTables
 import Sonic.Proofs.NumberMaster
 import Sonic.Proofs.NumberFast
 import Sonic.Proofs.NumberConvert
+import Sonic.Proofs.NumberAnchor
+import Sonic.Proofs.NumberValue
 
 /-!
 # C04 — numbers parse to the exact integer or the correctly rounded double
@@ -35,7 +37,7 @@ open Sonic.Model.Number
 open Sonic.Gen
 open Sonic.Proofs.NumberTables
 open Sonic.Proofs.Number
-open Sonic.Proofs.Rne (optLe)
+open Sonic.Proofs.Rne (optLe absDiff value value_eq_u)
 
 /-! ## tables -/
 
@@ -71,15 +73,6 @@ example : kPow10M128Tab.getD 348 (0, 0) = (0, 2 ^ 63) := by decide +kernel
 example : log2Pow10 (-348) = -1157 ∧ log2Pow10 347 = 1152 := by decide +kernel
 
 /-! ## the scanner -/
-
-theorem scanNumber_malformed_iff (buf : List Nat) (start : Nat) :
-    scanNumber buf start = .malformed ↔ scanToken (buf.drop start) = none := by
-  unfold scanNumber
-  cases scanToken (buf.drop start) with
-  | none => simp
-  | some t =>
-    simp only
-    cases t.value <;> simp
 
 /-- **The scanner accepts exactly the RFC 8259 numbers and stops at the end of the token**, on every buffer and at
     every start index (bytes beyond the list read as 0, so this covers every content of the padding):
@@ -130,29 +123,6 @@ example : parseNumber [48, 49] 2 0 = .ok (.uint 0) 1 .int ∧ scanNumber [48, 49
   decide +kernel
 
 /-! ## integers -/
-
-theorem value_int (t : Token) (hint : t.isInteger = true) (hfit : t.mantissa < 2 ^ 64) :
-    t.value = some (intVal t.neg t.mantissa) := by
-  have hexp : t.exponent = 0 := by
-    unfold Token.isInteger at hint
-    unfold Token.exponent
-    cases hf : t.fracDigits <;> cases he : t.exp <;> simp_all [expVal]
-  unfold Token.value intVal
-  simp only [hint, Bool.true_and]
-  cases hneg : t.neg
-  · simp only [Bool.not_false, Bool.true_and, decide_eq_true_eq, hfit, if_true, Bool.false_eq_true, if_false]
-    split <;> simp_all
-  · simp only [Bool.not_true, Bool.false_and, Bool.false_eq_true, if_false, Bool.true_and, decide_eq_true_eq, if_true]
-    by_cases h0 : t.mantissa = 0
-    · simp [h0]
-    · simp only [h0, if_false]
-      by_cases h63 : t.mantissa ≤ 2 ^ 63
-      · have : ¬ (t.mantissa > 2 ^ 63) := by omega
-        simp [h63, this]
-      · have : t.mantissa > 2 ^ 63 := by omega
-        simp only [h63, if_false, this, if_true]
-        rw [hexp, Sonic.Proofs.Rne.neg_u64 true t.mantissa (by omega) hfit]
-        rfl
 
 /-- **Integer kinds.**  A text without fraction and exponent whose value fits 64 bits (at most 20 digits) is stored
     exactly as the reference says: non-negative → `uint`; negative and `≥ -2^63` → `sint`; `-0` → the unsigned 0;
@@ -348,5 +318,39 @@ theorem C04_retry_sound (neg : Bool) (man : Nat) (e : Int) (k N : Nat) (b : Nat)
 example : Rne.round false 1844674407370955161 1 = some 4895412794951729152 ∧
     Rne.round false 1844674407370955162 1 = some 4895412794951729152 ∧
     Rne.round false 18446744073709551616 0 = some 4895412794951729152 := by decide +kernel
+
+
+/-! ## anchor of the oracle -/
+
+/-- **Anchor: `Spec.Rne.round` is round-to-nearest, ties-to-even.**  If `Rne.round false m e = some b` then `b` is a
+    finite bit pattern (exponent field below `0x7FF`) and, with `x = m·10^e = N/D`, for every bit pattern `b'`
+    `|x - value b| ≤ |x - value b'|` (both sides multiplied by `D·2^1074`); and if some different value is equally
+    near, then the significand of `b` is even.  (`Rne.round true` is the same bit pattern with the sign bit set:
+    `Proofs.Rne.round_neg`; `none` is returned only when no finite pattern is produced, see `roundRat_closed`.) -/
+theorem Rne_spec (m : Nat) (e : Int) (b : Nat) (h : Rne.round false m e = some b) :
+    b < 0x7FF0000000000000 ∧
+    ∀ b' : Nat,
+      absDiff (m * 10 ^ e.toNat * (value b).2) ((value b).1 * 10 ^ (-e).toNat)
+        ≤ absDiff (m * 10 ^ e.toNat * (value b').2) ((value b').1 * 10 ^ (-e).toNat) ∧
+      (absDiff (m * 10 ^ e.toNat * (value b).2) ((value b).1 * 10 ^ (-e).toNat)
+          = absDiff (m * 10 ^ e.toNat * (value b').2) ((value b').1 * 10 ^ (-e).toNat) →
+        (value b').1 ≠ (value b).1 → b % 2 = 0) := by
+  have hfin := (Sonic.Proofs.Rne.round_nearest m e b h 0).1
+  refine ⟨Nat.lt_of_lt_of_le hfin (by decide), fun b' => ?_⟩
+  obtain ⟨_, h1, h2⟩ := Sonic.Proofs.Rne.round_nearest m e b h b'
+  have hv2 : ∀ x, (value x).2 = 2 ^ 1074 := by
+    set_option exponentiation.threshold 1100 in
+    exact fun _ => rfl
+  rw [value_eq_u, value_eq_u, hv2, hv2]
+  exact ⟨h1, h2⟩
+
+-- non-vacuity: 0.1, the smallest subnormal 4.9e-324, an exact tie 2^53+1 → 2^53 (even), the largest double
+example : Rne.round false 1 (-1) = some 4591870180066957722 := by decide +kernel
+example : Rne.round false 49 (-325) = some 1 := by decide +kernel
+example : Rne.round false 9007199254740993 0 = some 4845873199050653696 ∧ 4845873199050653696 % 2 = 0 := by
+  decide +kernel
+example : Rne.round false 17976931348623157 292 = some 9218868437227405311 := by decide +kernel
+example : Rne.round false 1 400 = none := by decide +kernel
+example : value 4607182418800017408 = (2 ^ 1074, 2 ^ 1074) := by decide +kernel
 
 end Sonic.Props.C04
